@@ -33,6 +33,10 @@ pub enum Entry {
     Raw,
     /// capture_diff_deadline
     Capture,
+    /// algorithms::diff_slices_deadline on the extracted slices
+    RawSlices,
+    /// capture_diff_slices_deadline on the extracted slices
+    CaptureSlices,
     /// TextDiff::configure().deadline(t) over token slices / joined lines
     BuilderDeadline { lines: bool },
     /// TextDiff::configure().timeout(d), indexed schedule
@@ -90,6 +94,12 @@ pub struct RawRun {
 }
 
 pub fn raw_exec(seq: &SeqCase, deadline: bool, sched: Sched) -> Result<RawRun, String> {
+    raw_exec2(seq, false, deadline, sched)
+}
+
+/// `slices`: go through `algorithms::diff_slices(_deadline)` (full-range
+/// slices only) instead of `diff(_deadline)`.
+pub fn raw_exec2(seq: &SeqCase, slices: bool, deadline: bool, sched: Sched) -> Result<RawRun, String> {
     let oldc = counted(&seq.old);
     let newc = counted(&seq.new);
     let clock = SimClock::new(sched);
@@ -101,15 +111,23 @@ pub fn raw_exec(seq: &SeqCase, deadline: bool, sched: Sched) -> Result<RawRun, S
     let dl = if deadline { Some(instant_at(DL)) } else { None };
     let alg = seq.alg.to();
     let res = guarded(|| {
-        with_lookups!(seq, oldc, newc, |o, n| diff_deadline(
-            alg,
-            &mut hook,
-            o,
-            seq.or(),
-            n,
-            seq.nr(),
-            dl
-        ))
+        if slices {
+            if deadline {
+                similar::algorithms::diff_slices_deadline(alg, &mut hook, &oldc[..], &newc[..], dl)
+            } else {
+                similar::algorithms::diff_slices(alg, &mut hook, &oldc[..], &newc[..])
+            }
+        } else {
+            with_lookups!(seq, oldc, newc, |o, n| diff_deadline(
+                alg,
+                &mut hook,
+                o,
+                seq.or(),
+                n,
+                seq.nr(),
+                dl
+            ))
+        }
     });
     let total = cmps();
     let hits = similar::verif::take_hits();
@@ -165,6 +183,11 @@ fn cap_from(ops: Vec<Op>, st: &ClockState, np0: u64) -> CapRun {
 }
 
 pub fn capture_exec(seq: &SeqCase, deadline: bool, sched: Sched) -> Result<CapRun, String> {
+    capture_exec2(seq, false, deadline, sched)
+}
+
+/// `slices`: go through `capture_diff_slices(_deadline)`.
+pub fn capture_exec2(seq: &SeqCase, slices: bool, deadline: bool, sched: Sched) -> Result<CapRun, String> {
     let oldc = counted(&seq.old);
     let newc = counted(&seq.new);
     let clock = SimClock::new(sched);
@@ -174,14 +197,22 @@ pub fn capture_exec(seq: &SeqCase, deadline: bool, sched: Sched) -> Result<CapRu
     let dl = if deadline { Some(instant_at(DL)) } else { None };
     let alg = seq.alg.to();
     let ops = guarded(|| {
-        with_lookups!(seq, oldc, newc, |o, n| capture_diff_deadline(
-            alg,
-            o,
-            seq.or(),
-            n,
-            seq.nr(),
-            dl
-        ))
+        if slices {
+            if deadline {
+                similar::capture_diff_slices_deadline(alg, &oldc[..], &newc[..], dl)
+            } else {
+                similar::capture_diff_slices(alg, &oldc[..], &newc[..])
+            }
+        } else {
+            with_lookups!(seq, oldc, newc, |o, n| capture_diff_deadline(
+                alg,
+                o,
+                seq.or(),
+                n,
+                seq.nr(),
+                dl
+            ))
+        }
     })?;
     let st = clock.borrow();
     Ok(cap_from(ops_of(&ops), &st, np0))
@@ -321,12 +352,19 @@ pub const F_COSTEXP: usize = 7;
 
 impl C07 {
     fn exec_inner(&self, case: &Case, out: &mut RunOut) -> Result<(), Fail> {
-        let seq = &case.seq;
+        let core_holder;
+        let slices = matches!(case.entry, Entry::RawSlices | Entry::CaptureSlices);
+        let seq = if slices {
+            core_holder = core_case(&case.seq);
+            &core_holder
+        } else {
+            &case.seq
+        };
         let mut dig = Dig::new();
         match &case.entry {
-            Entry::Raw => {
+            Entry::Raw | Entry::RawSlices => {
                 // reference: no deadline at all
-                let none = raw_exec(seq, false, Sched::Never).map_err(|m| Fail {
+                let none = raw_exec2(seq, slices, false, Sched::Never).map_err(|m| Fail {
                     clause: "c07.panic_no_deadline",
                     detail: m,
                 })?;
@@ -345,7 +383,7 @@ impl C07 {
                 let kmax = dry.probes;
                 out.gauge("max_probes_per_case", kmax);
                 for k in fault_points(kmax, case.cap, case.sample_seed, case.only_k) {
-                    let run = raw_exec(seq, true, Sched::Indexed(k)).map_err(|m| Fail {
+                    let run = raw_exec2(seq, slices, true, Sched::Indexed(k)).map_err(|m| Fail {
                         clause: "c07.panic",
                         detail: format!("k={}: {}", k, m),
                     })?;
@@ -376,8 +414,11 @@ impl C07 {
                     } else {
                         if run.first_expired != Some(k) {
                             return fail(
-                                "c07.harness_probe_order",
-                                format!("k={}: first expired probe {:?}", k, run.first_expired),
+                                "c07.raw_plumbing",
+                                format!(
+                                    "k={}: the deadline did not reach the algorithm as configured: {} probes seen, first expired {:?}, the algorithm alone makes {}",
+                                    k, run.probes, run.first_expired, kmax
+                                ),
                             );
                         }
                         out.faults[if k == 0 { F_EXP0 } else { F_EXPMID }] += 1;
@@ -425,8 +466,8 @@ impl C07 {
                     }
                 }
             }
-            Entry::Capture => {
-                let none = capture_exec(seq, false, Sched::Never).map_err(|m| Fail {
+            Entry::Capture | Entry::CaptureSlices => {
+                let none = capture_exec2(seq, slices, false, Sched::Never).map_err(|m| Fail {
                     clause: "c07.panic_no_deadline",
                     detail: m,
                 })?;
@@ -438,7 +479,7 @@ impl C07 {
                 let kmax = dry.probes;
                 out.gauge("max_probes_per_case", kmax);
                 for k in fault_points(kmax, case.cap, case.sample_seed, case.only_k) {
-                    let run = capture_exec(seq, true, Sched::Indexed(k)).map_err(|m| Fail {
+                    let run = capture_exec2(seq, slices, true, Sched::Indexed(k)).map_err(|m| Fail {
                         clause: "c07.panic",
                         detail: format!("k={}: {}", k, m),
                     })?;
@@ -759,9 +800,11 @@ impl Prop for C07 {
             },
         };
         let seq = gen_seq_case(rng, size, None);
-        let entry = match rng.weighted(&[50, 20, 10, 8, 10, 4]) {
+        let entry = match rng.weighted(&[50, 20, 10, 8, 10, 4, 5, 5]) {
             0 => Entry::Raw,
             1 => Entry::Capture,
+            6 => Entry::RawSlices,
+            7 => Entry::CaptureSlices,
             2 => Entry::BuilderDeadline {
                 lines: rng.chance(1, 2),
             },
@@ -773,7 +816,7 @@ impl Prop for C07 {
                 abs_last: rng.chance(1, 2),
                 nanos: rng.below(10_000_000),
             },
-            _ => Entry::CostTimeout {
+            4 => Entry::CostTimeout {
                 dur: match rng.weighted(&[1, 1, 6, 1]) {
                     0 => DurKind::Zero,
                     1 => DurKind::OneNano,
@@ -790,6 +833,7 @@ impl Prop for C07 {
                 seed: rng.next(),
                 profile: rng.below(4) as u8,
             },
+            _ => Entry::Raw,
         };
         let cap = match (tier, size) {
             (Tier::Quick, Size::Small) | (Tier::Quick, Size::Medium) => 256,
